@@ -317,9 +317,16 @@ Ltac ids :=
 Lemma check_ok : forall len expected, expected <= len -> check_len len expected = Ok tt.
 Proof. intros len expected H. unfold check_len. destruct (len <? expected) eqn:E; [lia|reflexivity]. Qed.
 
-Lemma expected_other : forall typ, interpreted typ = false -> expected_len typ = 0.
+(* the ids record_step itself acts on (the short records 12..18 are rewritten into 1..7 by
+   [unshort] before it is reached) *)
+Definition step_id (t : N) : bool := (t <=? 11) || (t =? 146).
+
+Lemma interpreted_split : forall t, interpreted t = false -> step_id t = false /\ is_short t = false.
+Proof. intros t H. unfold interpreted in H. unfold step_id, is_short. lia. Qed.
+
+Lemma expected_other : forall typ, step_id typ = false -> expected_len typ = 0.
 Proof.
-  intros typ H. unfold interpreted in H. unfold expected_len.
+  intros typ H. unfold step_id in H. unfold expected_len.
   repeat match goal with
          | |- context [if ?c then _ else _] => destruct c eqn:?; try lia
          end.
@@ -413,11 +420,11 @@ Proof.
   rewrite rd_head8, rd4 by exact Hi. rewrite Hs. reflexivity.
 Qed.
 
-(* every id the reader does not interpret (BrtCellBlank among them) is skipped *)
-Lemma step_other : forall typ buf, interpreted typ = false -> record_step typ buf = Ok CSkip.
+(* every id the loop body does not act on is skipped *)
+Lemma step_other : forall typ buf, step_id typ = false -> record_step typ buf = Ok CSkip.
 Proof.
   intros typ buf H. unfold XlsbRec.record_step. rewrite (expected_other _ H).
-  rewrite check_ok by lia. cbn [obind]. unfold interpreted in H.
+  rewrite check_ok by lia. cbn [obind]. unfold step_id in H.
   repeat match goal with
          | |- context [if ?c then _ else _] => destruct c eqn:?; try lia
          end.
@@ -431,6 +438,14 @@ Proof.
   rewrite check_ok by (rewrite lenN_app, lenN_le; lia). cbn [obind]. ids.
   rewrite lenN_app, lenN_le. destruct (N.of_nat 4 + lenN tail <? 4) eqn:E; [lia|].
   rewrite rd4 by exact H. reflexivity.
+Qed.
+
+(* BrtCellBlank: no value; with at least the column field it moves next_col *)
+Lemma step_blank : forall buf,
+  record_step 1 buf = Ok (if 4 <=? lenN buf then CBlank (rd 4 0 buf) else CSkip).
+Proof.
+  intros buf. unfold XlsbRec.record_step. change (expected_len 1) with 0.
+  rewrite check_ok by lia. cbn [obind]. ids. destruct (4 <=? lenN buf); reflexivity.
 Qed.
 
 Lemma step_end : forall buf, record_step 146 buf = Ok CEnd.
@@ -448,12 +463,13 @@ Theorem cell_table : forall col style fl v tail,
   record_step (cval_id v) buf =
     match cval_data style v with
     | Some d => Ok (CCell d)
-    | None => Ok CSkip
+    | None => Ok (CBlank col)
     end.
 Proof.
   intros col style fl v tail Hcol Hst Hv buf. subst buf. split; [apply head_col; exact Hcol|].
   destruct v as [|f|e|b|bits|s|i|s|bits|b|e]; cbn [cval_id cval_bytes XlsbRec.cval_data wf_cval] in *.
-  - apply step_other. reflexivity.
+  - rewrite step_blank. rewrite lenN_head. destruct (4 <=? 8 + lenN ([] ++ tail)) eqn:E; [|lia].
+    rewrite head_col by exact Hcol. reflexivity.
   - apply step_rk; assumption.
   - apply step_err. left; reflexivity.
   - apply step_bool. left; reflexivity.
@@ -472,7 +488,7 @@ Qed.
 Theorem cell_table_kinds : forall col style fl tail, style < 16777216 ->
   let fmt := nthN (e_formats en) style in
   let hd := cell_head col style fl in
-  (forall body, record_step 1 body = Ok CSkip) /\
+  (forall body, record_step 1 body = Ok (if 4 <=? lenN body then CBlank (rd 4 0 body) else CSkip)) /\
   (forall f, legal_form f = true ->
      record_step 2 (hd ++ le_bytes 4 (rk_encode f) ++ tail) =
        Ok (CCell (RVal (rk_wrap (xrk_form_value fdiv100 f) fmt (e_1904 en))))) /\
@@ -494,7 +510,7 @@ Theorem cell_table_kinds : forall col style fl tail, style < 16777216 ->
   (forall body, record_step 146 body = Ok CEnd).
 Proof.
   intros col style fl tail Hst fmt hd. subst fmt hd.
-  split; [intros; apply step_other; reflexivity|].
+  split; [intros; apply step_blank|].
   split; [intros; apply step_rk; assumption|].
   split; [intros; split; apply step_err; [left|right]; reflexivity|].
   split; [intros; split; apply step_bool; [left|right]; reflexivity|].
@@ -503,6 +519,36 @@ Proof.
   split; [intros; apply step_isst; assumption|].
   split; [intros; apply step_row; assumption|].
   intros; apply step_end.
+Qed.
+
+(* ---- the short cell records ---- *)
+(* a short record BrtShortBlank .. BrtShortIsst is read as its long twin at column next_col *)
+Theorem short_unshort : forall style fl v tail ncol, shortable v = true ->
+  unshort (cval_id v + 11) (short_head style fl ++ cval_bytes v ++ tail) ncol =
+    (cval_id v, cell_head ncol style fl ++ cval_bytes v ++ tail).
+Proof.
+  intros style fl v tail ncol H. unfold cell_head, short_head. rewrite <- !app_assoc.
+  destruct v; try discriminate H; reflexivity.
+Qed.
+
+Lemma unshort_other : forall typ buf ncol, is_short typ = false -> unshort typ buf ncol = (typ, buf).
+Proof. intros typ buf ncol H. unfold unshort. rewrite H. reflexivity. Qed.
+
+(* the table of the short record kinds: the value of the long record of the same kind, at the
+   column right of the previous cell record *)
+Theorem short_cell_table : forall ncol style fl v tail,
+  ncol < 4294967296 -> style < 16777216 -> wf_cval en v = true -> shortable v = true ->
+  let tb := unshort (cval_id v + 11) (short_head style fl ++ cval_bytes v ++ tail) ncol in
+  12 <= cval_id v + 11 <= 18 /\ rd 4 0 (snd tb) = ncol /\
+  record_step (fst tb) (snd tb) =
+    match cval_data style v with
+    | Some d => Ok (CCell d)
+    | None => Ok (CBlank ncol)
+    end.
+Proof.
+  intros ncol style fl v tail Hc Hst Hv Hs tb. subst tb. rewrite short_unshort by exact Hs.
+  cbn [fst snd]. split; [unfold shortable in Hs; destruct v; cbn [cval_id] in *; lia|].
+  apply cell_table; assumption.
 Qed.
 
 End Table.
@@ -610,6 +656,20 @@ Fixpoint final_row (row : N) (items : list (frm * item)) : N :=
   | _ :: t => final_row row t
   end.
 
+(* the reader's next_col agrees with the specification's "column of the previous cell record of
+   the row": one to its right; with no previous cell in the row nothing is asked of it *)
+Definition col_rel (prev : option N) (ncol : N) : Prop :=
+  match prev with
+  | Some p => ncol = p + 1 /\ p < 16384
+  | None => True
+  end.
+
+Lemma wrap_succ32_small : forall c, c < 16384 -> wrap_succ32 c = c + 1.
+Proof. intros c H. unfold wrap_succ32. apply N.mod_small. lia. Qed.
+
+Lemma wrap_succ32_lt : forall c, wrap_succ32 c < 4294967296.
+Proof. intros c. unfold wrap_succ32. apply N.mod_lt. lia. Qed.
+
 Section Loop.
 Variable fdiv100 : N -> N.
 Variable en : env.
@@ -621,97 +681,123 @@ Notation denote := (denote fdiv100 en).
 Ltac lia := try clear fdiv100; try clear en; Lia.lia.
 
 (* what one record does to the loop, given the loop on the rest of the part *)
-Definition raw_step (typ : N) (body : list N) (row : N) (k : N -> outcome (list cellr))
+Definition raw_step (typ : N) (body : list N) (row ncol : N) (k : N -> N -> outcome (list cellr))
   : outcome (list cellr) :=
-  do st <- record_step typ body;
+  let tb := unshort typ body ncol in
+  do st <- record_step (fst tb) (snd tb);
   match st with
-  | CCell v => do more <- k row; Ok (((row, rd 4 0 body), v) :: more)
-  | CRow r' => if 1048576 <? r' then Ok [] else k r'
+  | CCell v =>
+      let col := rd 4 0 (snd tb) in
+      do more <- k row (wrap_succ32 col); Ok (((row, col), v) :: more)
+  | CBlank col => k row (wrap_succ32 col)
+  | CRow r' => if 1048576 <? r' then Ok [] else k r' 0
   | CEnd => Ok []
-  | CSkip => k row
+  | CSkip => k row ncol
   end.
 
-Lemma loop_frame : forall f fr id body rest row, wf_frame fr id body = true ->
-  cells_loop (S f) (frame fr id body ++ rest) row = raw_step id body row (cells_loop f rest).
+Lemma loop_frame : forall f fr id body rest row ncol, wf_frame fr id body = true ->
+  cells_loop (S f) (frame fr id body ++ rest) row ncol =
+    raw_step id body row ncol (cells_loop f rest).
 Proof.
-  intros f fr id body rest row H. cbn [XlsbRec.cells_loop].
+  intros f fr id body rest row ncol H. cbn [XlsbRec.cells_loop].
   rewrite next_record_frame by exact H. cbn [obind fst snd]. reflexivity.
 Qed.
 
-Lemma raw_step_ext : forall typ body row k1 k2, (forall r, k1 r = k2 r) ->
-  raw_step typ body row k1 = raw_step typ body row k2.
+Lemma raw_step_ext : forall typ body row ncol k1 k2, (forall r c, k1 r c = k2 r c) ->
+  raw_step typ body row ncol k1 = raw_step typ body row ncol k2.
 Proof.
-  intros typ body row k1 k2 H. unfold raw_step.
-  destruct (record_step typ body) as [[v|r'| |]| | |]; cbn [obind]; rewrite ?H; reflexivity.
+  intros typ body row ncol k1 k2 H. unfold raw_step. cbv zeta.
+  destruct (record_step (fst (unshort typ body ncol)) (snd (unshort typ body ncol)))
+    as [[v|c|r'| |]| | |]; cbn [obind]; rewrite ?H; reflexivity.
 Qed.
 
-Lemma raw_step_skip : forall typ body row k, interpreted typ = false ->
-  raw_step typ body row k = k row.
-Proof. intros. unfold raw_step. rewrite step_other by assumption. reflexivity. Qed.
-
-Lemma item_loop : forall x f rest row, wf_item en x = true ->
-  cells_loop (S f) (enc_item x ++ rest) row =
-    match snd x with
-    | IRow r _ => cells_loop f rest r
-    | ICell col style _ v _ =>
-        match cval_data style v with
-        | Some d => do more <- cells_loop f rest row; Ok (((row, col), d) :: more)
-        | None => cells_loop f rest row
-        end
-    | IOther _ _ => cells_loop f rest row
-    end.
+Lemma raw_step_skip : forall typ body row ncol k, interpreted typ = false ->
+  raw_step typ body row ncol k = k row ncol.
 Proof.
-  intros [fr it] f rest row H. unfold wf_item in H. cbn [fst snd] in *.
-  apply andb_true_iff in H as [Hf Hi]. unfold enc_item. cbn [fst snd].
-  rewrite loop_frame by exact Hf. unfold raw_step.
-  destruct it as [r tail|col style fl v tail|id body]; cbn [item_id item_body].
-  - rewrite step_row by lia. cbn [obind].
-    destruct (1048576 <? r) eqn:E; [lia|reflexivity].
-  - apply andb_true_iff in Hi as [Hi Hv]. apply andb_true_iff in Hi as [Hi Hfl].
-    apply andb_true_iff in Hi as [Hc Hs].
-    destruct (@cell_table fdiv100 en col style fl v tail) as [Hcol Hstep]; [lia|lia|exact Hv|].
-    cbv zeta in Hcol, Hstep. rewrite Hstep, Hcol.
-    destruct (cval_data style v); reflexivity.
-  - rewrite step_other; [reflexivity|]. destruct (interpreted id); [discriminate|reflexivity].
+  intros typ body row ncol k H. apply interpreted_split in H as [H1 H2].
+  unfold raw_step. rewrite unshort_other by exact H2. cbn [fst snd].
+  rewrite step_other by exact H1. reflexivity.
 Qed.
 
-(* the items of a cell table, then whatever follows *)
-Lemma items_loop : forall items F rest row,
-  forallb (wf_item en) items = true -> (length items <= F)%nat ->
-  cells_loop F (flat_map enc_item items ++ rest) row =
-    do more <- cells_loop (F - length items) rest (final_row row items);
-    Ok (denote row items ++ more).
+Lemma cell_table_id_interpreted : forall id, cell_table_id id = false -> interpreted id = false.
+Proof. intros id H. unfold cell_table_id in H. unfold interpreted. lia. Qed.
+
+(* the items of a cell table, then whatever follows: the cells the specification gives them,
+   the row of the last row header, some next_col *)
+Lemma items_loop : forall items F rest row prev ncol,
+  forallb (wf_item en) items = true -> shorts_placed prev items = true -> col_rel prev ncol ->
+  (length items <= F)%nat ->
+  exists ncol',
+    cells_loop F (flat_map enc_item items ++ rest) row ncol =
+      do more <- cells_loop (F - length items) rest (final_row row items) ncol';
+      Ok (denote row prev items ++ more).
 Proof.
-  induction items as [|x items IH]; intros F rest row Hwf HF.
-  - cbn [flat_map app length final_row XlsbRec.denote]. rewrite Nat.sub_0_r.
+  induction items as [|x items IH]; intros F rest row prev ncol Hwf Hsp Hrel HF.
+  - exists ncol. cbn [flat_map app length final_row XlsbRec.denote]. rewrite Nat.sub_0_r.
     symmetry. apply obind_ret.
   - cbn [forallb] in Hwf. apply andb_true_iff in Hwf as [Hx Hwf].
     destruct F as [|f]; [cbn [length] in HF; lia|]. cbn [length] in HF.
-    cbn [flat_map]. rewrite <- app_assoc. rewrite item_loop by exact Hx.
-    cbn [length Nat.sub].
-    destruct x as [fr it]. destruct it as [r tail|col style fl v tail|id body];
-      cbn [snd final_row XlsbRec.denote].
-    + apply IH; [exact Hwf|lia].
-    + destruct (cval_data style v) as [d|].
-      * rewrite IH by (try exact Hwf; lia).
-        destruct (cells_loop (f - length items) rest (final_row row items)); reflexivity.
-      * apply IH; [exact Hwf|lia].
-    + apply IH; [exact Hwf|lia].
+    cbn [flat_map]. rewrite <- app_assoc. cbn [length Nat.sub].
+    destruct x as [fr it]. unfold wf_item in Hx. cbn [fst snd] in Hx.
+    apply andb_true_iff in Hx as [Hf Hi]. unfold enc_item at 1. cbn [fst snd].
+    rewrite loop_frame by exact Hf. unfold raw_step. cbv zeta.
+    destruct it as [r tail|col style fl v tail|style fl v tail|id body];
+      cbn [item_id item_body final_row XlsbRec.denote shorts_placed] in *.
+    + (* BrtRowHdr *)
+      rewrite unshort_other by reflexivity. cbn [fst snd].
+      rewrite step_row by lia. cbn [obind].
+      destruct (1048576 <? r) eqn:E; [lia|].
+      apply IH; [exact Hwf|exact Hsp|exact I|lia].
+    + (* a cell record with its column *)
+      apply andb_true_iff in Hi as [Hi Hv]. apply andb_true_iff in Hi as [Hi Hfl].
+      apply andb_true_iff in Hi as [Hc Hs].
+      rewrite unshort_other by (destruct v; reflexivity). cbn [fst snd].
+      destruct (@cell_table fdiv100 en col style fl v tail) as [Hcol Hstep]; [lia|lia|exact Hv|].
+      cbv zeta in Hcol, Hstep. rewrite Hstep.
+      assert (Hrel' : col_rel (Some col) (wrap_succ32 col)).
+      { cbn [col_rel]. rewrite wrap_succ32_small by lia. split; [reflexivity|lia]. }
+      destruct (IH f rest row (Some col) (wrap_succ32 col) Hwf Hsp Hrel' ltac:(lia)) as [n' E].
+      exists n'. destruct (cval_data style v) as [d|]; cbn [obind]; rewrite ?Hcol, E.
+      * destruct (cells_loop (f - length items) rest (final_row row items) n'); reflexivity.
+      * reflexivity.
+    + (* a short cell record *)
+      apply andb_true_iff in Hi as [Hi Hsh]. apply andb_true_iff in Hi as [Hi Hv].
+      apply andb_true_iff in Hi as [Hs Hfl].
+      destruct prev as [p|]; [|discriminate Hsp].
+      apply andb_true_iff in Hsp as [Hp Hsp]. destruct Hrel as [Hn Hp0]. subst ncol.
+      destruct (@short_cell_table fdiv100 en (p + 1) style fl v tail) as (_ & Hcol & Hstep);
+        [lia|lia|exact Hv|exact Hsh|].
+      cbv zeta in Hcol, Hstep. rewrite Hstep.
+      assert (Hrel' : col_rel (Some (p + 1)) (wrap_succ32 (p + 1))).
+      { cbn [col_rel]. rewrite wrap_succ32_small by lia. split; [reflexivity|lia]. }
+      destruct (IH f rest row (Some (p + 1)) (wrap_succ32 (p + 1)) Hwf Hsp Hrel' ltac:(lia)) as [n' E].
+      exists n'. destruct (cval_data style v) as [d|]; cbn [obind]; rewrite ?Hcol, E.
+      * destruct (cells_loop (f - length items) rest (final_row row items) n'); reflexivity.
+      * reflexivity.
+    + (* a record outside the cell table grammar *)
+      assert (Hid : interpreted id = false).
+      { apply cell_table_id_interpreted. destruct (cell_table_id id); [discriminate|reflexivity]. }
+      apply interpreted_split in Hid as [H1 H2].
+      rewrite unshort_other by exact H2. cbn [fst snd]. rewrite step_other by exact H1.
+      cbn [obind]. apply IH; [exact Hwf|exact Hsp|exact Hrel|lia].
 Qed.
 
-Lemma loop_end : forall f fr body rest row, wf_frame fr 146 body = true ->
-  cells_loop (S f) (frame fr 146 body ++ rest) row = Ok [].
+Lemma loop_end : forall f fr body rest row ncol, wf_frame fr 146 body = true ->
+  cells_loop (S f) (frame fr 146 body ++ rest) row ncol = Ok [].
 Proof.
-  intros. rewrite loop_frame by assumption. unfold raw_step. rewrite step_end. reflexivity.
+  intros. rewrite loop_frame by assumption. unfold raw_step.
+  rewrite unshort_other by reflexivity. cbn [fst snd]. rewrite step_end. reflexivity.
 Qed.
 
 Theorem cell_table_loop : forall items F fr body rest,
-  forallb (wf_item en) items = true -> wf_frame fr 146 body = true -> (length items < F)%nat ->
-  cells_loop F (flat_map enc_item items ++ frame fr 146 body ++ rest) 0 = Ok (denote 0 items).
+  forallb (wf_item en) items = true -> shorts_placed None items = true ->
+  wf_frame fr 146 body = true -> (length items < F)%nat ->
+  cells_loop F (flat_map enc_item items ++ frame fr 146 body ++ rest) 0 0 = Ok (denote 0 None items).
 Proof.
-  intros items F fr body rest Hwf He HF.
-  rewrite items_loop by (try exact Hwf; lia).
-  destruct (F - length items)%nat as [|f] eqn:E; [lia|].
+  intros items F fr body rest Hwf Hsp He HF.
+  destruct (@items_loop items F (frame fr 146 body ++ rest) 0 None 0 Hwf Hsp I ltac:(lia)) as [n' E].
+  rewrite E.
+  destruct (F - length items)%nat as [|f] eqn:EF; [lia|].
   rewrite loop_end by exact He. cbn [obind]. rewrite app_nil_r. reflexivity.
 Qed.
 
@@ -762,15 +848,17 @@ Proof.
   apply fill_buffer_len in E2. inversion H; subst. lia.
 Qed.
 
-Lemma cells_loop_fuel : forall f1 f2 s row, (length s < f1)%nat -> (length s < f2)%nat ->
-  cells_loop f1 s row = cells_loop f2 s row.
+Lemma cells_loop_fuel : forall f1 f2 s row ncol, (length s < f1)%nat -> (length s < f2)%nat ->
+  cells_loop f1 s row ncol = cells_loop f2 s row ncol.
 Proof.
-  induction f1 as [|f1 IH]; intros f2 s row H1 H2; [lia|].
+  induction f1 as [|f1 IH]; intros f2 s row ncol H1 H2; [lia|].
   destruct f2 as [|f2]; [lia|]. cbn [XlsbRec.cells_loop].
   destruct (next_record s) as [[[t b] r]| | |] eqn:E; cbn [obind fst snd]; try reflexivity.
-  apply next_record_len in E.
-  destruct (record_step t b) as [[v|r'| |]| | |]; cbn [obind]; try reflexivity.
+  apply next_record_len in E. cbv zeta.
+  destruct (record_step (fst (unshort t b ncol)) (snd (unshort t b ncol)))
+    as [[v|c|r'| |]| | |]; cbn [obind]; try reflexivity.
   - rewrite (IH f2 r row) by lia. reflexivity.
+  - apply IH; lia.
   - destruct (1048576 <? r'); [reflexivity|]. apply IH; lia.
   - apply IH; lia.
 Qed.
@@ -778,11 +866,13 @@ Qed.
 (* the cell loop never panics and, with more fuel than bytes, never runs out of fuel *)
 Lemma record_step_clean : forall t b, clean (record_step t b).
 Proof.
-  intros t b. destruct (interpreted t) eqn:Hi.
+  intros t b. destruct (step_id t) eqn:Hi.
   2:{ rewrite step_other by exact Hi. split; discriminate. }
+  destruct (N.eq_dec t 1) as [->|Hn1].
+  { rewrite step_blank. destruct (4 <=? lenN b); split; discriminate. }
   assert (Ht : t = 0 \/ t = 2 \/ t = 3 \/ t = 4 \/ t = 5 \/ t = 6 \/ t = 7 \/ t = 8 \/ t = 9 \/
-               t = 10 \/ t = 11 \/ t = 146) by (unfold interpreted in Hi; lia).
-  clear Hi. unfold XlsbRec.record_step, check_len.
+               t = 10 \/ t = 11 \/ t = 146) by (unfold step_id in Hi; lia).
+  clear Hi Hn1. unfold XlsbRec.record_step, check_len.
   repeat (destruct Ht as [Ht|Ht]; [subst t|]); try subst t;
     match goal with |- context [expected_len ?k] =>
       let v := eval vm_compute in (expected_len k) in change (expected_len k) with v end;
@@ -805,40 +895,44 @@ Proof.
            end; cbn [obind]; split; discriminate.
 Qed.
 
-Lemma cells_loop_clean : forall f s row, (length s < f)%nat -> clean (cells_loop f s row).
+Lemma cells_loop_clean : forall f s row ncol, (length s < f)%nat -> clean (cells_loop f s row ncol).
 Proof.
-  induction f as [|f IH]; intros s row H; [lia|]. cbn [XlsbRec.cells_loop].
+  induction f as [|f IH]; intros s row ncol H; [lia|]. cbn [XlsbRec.cells_loop].
   destruct (next_record_clean s) as [N1 N2].
   destruct (next_record s) as [[[t b] r]| | |] eqn:E; cbn [obind fst snd];
     try (split; discriminate); try congruence.
-  apply next_record_len in E. destruct (record_step_clean t b) as [R1 R2].
-  destruct (record_step t b) as [[v|r'| |]| | |]; cbn [obind];
+  apply next_record_len in E. cbv zeta.
+  destruct (record_step_clean (fst (unshort t b ncol)) (snd (unshort t b ncol))) as [R1 R2].
+  destruct (record_step (fst (unshort t b ncol)) (snd (unshort t b ncol)))
+    as [[v|c|r'| |]| | |]; cbn [obind];
     try (split; discriminate); try congruence.
-  - destruct (IH r row ltac:(lia)) as [I1 I2].
-    destruct (cells_loop f r row); cbn [obind]; split; try discriminate; congruence.
+  - destruct (IH r row (wrap_succ32 (rd 4 0 (snd (unshort t b ncol)))) ltac:(lia)) as [I1 I2].
+    destruct (cells_loop f r row (wrap_succ32 (rd 4 0 (snd (unshort t b ncol))))); cbn [obind];
+      split; try discriminate; congruence.
+  - apply IH; lia.
   - destruct (1048576 <? r'); [split; discriminate|]. apply IH; lia.
   - apply IH; lia.
 Qed.
 
 (* the fuel worksheet_range_ref's model uses (length of the part + 1) always suffices *)
-Lemma cells_loop_no_fuel_out : forall f s row, (length s < f)%nat ->
-  cells_loop f s row <> OutOfFuel.
-Proof. intros f s row H. destruct (@cells_loop_clean f s row H) as [_ C]. exact C. Qed.
+Lemma cells_loop_no_fuel_out : forall f s row ncol, (length s < f)%nat ->
+  cells_loop f s row ncol <> OutOfFuel.
+Proof. intros f s row ncol H. destruct (@cells_loop_clean f s row ncol H) as [_ C]. exact C. Qed.
 
 (* ================= C03_ignorable_transparent ================= *)
 (* the cells of a part positioned in the cell table (after BrtBeginSheetData), current row
-   [row]; the fuel is the one worksheet_range_ref uses *)
-Definition cells_from (s : list N) (row : N) : outcome (list cellr) :=
-  cells_loop (S (length s)) s row.
+   [row], next_col [ncol]; the fuel is the one worksheet_range_ref uses *)
+Definition cells_from (s : list N) (row ncol : N) : outcome (list cellr) :=
+  cells_loop (S (length s)) s row ncol.
 
-Lemma transparent_gen : forall pre fr id body rest f1 f2 row,
+Lemma transparent_gen : forall pre fr id body rest f1 f2 row ncol,
   forallb wf_raw pre = true -> wf_frame fr id body = true -> interpreted id = false ->
   (length (flat_map enc_raw pre ++ frame fr id body ++ rest) < f1)%nat ->
   (length (flat_map enc_raw pre ++ rest) < f2)%nat ->
-  cells_loop f1 (flat_map enc_raw pre ++ frame fr id body ++ rest) row =
-  cells_loop f2 (flat_map enc_raw pre ++ rest) row.
+  cells_loop f1 (flat_map enc_raw pre ++ frame fr id body ++ rest) row ncol =
+  cells_loop f2 (flat_map enc_raw pre ++ rest) row ncol.
 Proof.
-  induction pre as [|x pre IH]; intros fr id body rest f1 f2 row Hpre Hr Hid H1 H2.
+  induction pre as [|x pre IH]; intros fr id body rest f1 f2 row ncol Hpre Hr Hid H1 H2.
   - cbn [flat_map app] in *. destruct f1 as [|f1]; [lia|].
     rewrite loop_frame by exact Hr. rewrite raw_step_skip by exact Hid.
     pose proof (frame_length_pos fr id body). rewrite app_length in H1.
@@ -849,19 +943,21 @@ Proof.
     unfold enc_raw at 1 in H2. unfold wf_raw in Hx. cbn [fst snd] in *.
     destruct f1 as [|f1]; [lia|]. destruct f2 as [|f2]; [lia|].
     rewrite !loop_frame by exact Hx.
-    apply raw_step_ext. intros r.
+    apply raw_step_ext. intros r c.
     pose proof (frame_length_pos frx idx bx).
     rewrite app_length in H1, H2.
     apply IH; try assumption; lia.
 Qed.
 
-(* inserting a well-framed record whose id the cell reader does not interpret, between any two
-   records of any well-framed prefix of the cell stream (what follows is arbitrary, even
-   malformed), leaves the outcome — the cell list, or the error / panic — unchanged *)
-Theorem ignorable_transparent : forall pre fr id body rest row,
+(* inserting a well-framed record whose id the cell reader does not act on (anything but
+   BrtRowHdr, the cell records 1..11, the short cell records 12..18 and BrtEndSheetData), between
+   any two records of any well-framed prefix of the cell stream — cell records, short ones
+   included, on either side; what follows is arbitrary, even malformed — leaves the outcome (the
+   cell list, or the error / panic) unchanged: neither the row nor next_col is touched *)
+Theorem ignorable_transparent : forall pre fr id body rest row ncol,
   forallb wf_raw pre = true -> wf_frame fr id body = true -> interpreted id = false ->
-  cells_from (flat_map enc_raw pre ++ frame fr id body ++ rest) row =
-  cells_from (flat_map enc_raw pre ++ rest) row.
+  cells_from (flat_map enc_raw pre ++ frame fr id body ++ rest) row ncol =
+  cells_from (flat_map enc_raw pre ++ rest) row ncol.
 Proof.
   intros. unfold cells_from. apply transparent_gen; try assumption; lia.
 Qed.
@@ -1136,7 +1232,8 @@ Proof.
   intros c Hwf.
   destruct c as [pre1 dim pre2 [frb bb] items [fre be] trailer].
   unfold wf_layout in Hwf. cbn [l_pre1 l_dim l_pre2 l_begin l_items l_end fst snd] in Hwf.
-  apply andb_true_iff in Hwf as [Hwf He]. apply andb_true_iff in Hwf as [Hwf Hsr].
+  apply andb_true_iff in Hwf as [Hwf He]. apply andb_true_iff in Hwf as [Hwf Hsp].
+  apply andb_true_iff in Hwf as [Hwf Hsr].
   apply andb_true_iff in Hwf as [Hwf Hit]. apply andb_true_iff in Hwf as [Hwf Hb].
   apply andb_true_iff in Hwf as [Hwf Hp2]. apply andb_true_iff in Hwf as [Hwf Hd].
   apply andb_true_iff in Hwf as [Hp1 Hn1].
@@ -1177,7 +1274,7 @@ Proof.
     rewrite E2. destruct F2 as [|f2]; [unfold F in HF1; lia|].
     rewrite scan_begin by exact Hb. cbn [obind fst snd].
     unfold T3. unfold logical. cbn [l_items].
-    apply cell_table_loop; [exact Hit|exact He|unfold F; lia].
+    apply cell_table_loop; [exact Hit|exact Hsp|exact He|unfold F; lia].
   - (* no BrtWsDim: the header is one run of skipped records and blocks *)
     pose (S0 := flat_map enc_hrec pre1 ++ T2).
     match goal with |- sheet_cells _ _ ?e = _ => change e with S0 end.
@@ -1194,7 +1291,7 @@ Proof.
     rewrite E2. destruct F2 as [|f2]; [unfold F in HF1; lia|].
     rewrite scan_begin by exact Hb. cbn [obind fst snd].
     unfold T3. unfold logical. cbn [l_items].
-    apply cell_table_loop; [exact Hit|exact He|unfold F; lia].
+    apply cell_table_loop; [exact Hit|exact Hsp|exact He|unfold F; lia].
 Qed.
 
 (* the public cells reader alone (worksheet_cells_reader + next_cell) sees the same cells *)
@@ -1410,17 +1507,30 @@ Variable en : env.
 
 Ltac lia := try clear fdiv100; try clear en; Lia.lia.
 
-Lemma denote_grid : forall items row, forallb (wf_item en) items = true -> row < 1048576 ->
-  Forall (@in_grid dref) (denote fdiv100 en row items).
+Lemma denote_grid : forall items row prev, forallb (wf_item en) items = true ->
+  shorts_placed prev items = true -> row < 1048576 ->
+  Forall (@in_grid dref) (denote fdiv100 en row prev items).
 Proof.
-  induction items as [|[fr it] items IH]; intros row H Hr; [constructor|].
+  induction items as [|[fr it] items IH]; intros row prev H Hsp Hr; [constructor|].
   cbn [forallb] in H. apply andb_true_iff in H as [Hx H]. unfold wf_item in Hx. cbn [fst snd] in Hx.
   apply andb_true_iff in Hx as [_ Hx].
-  destruct it as [r tail|col style fl v tail|id body]; cbn [denote].
-  - apply IH; [exact H|lia].
+  destruct it as [r tail|col style fl v tail|style fl v tail|id body]; cbn [denote shorts_placed] in *.
+  - apply IH; [exact H|exact Hsp|lia].
   - destruct (cval_data fdiv100 en style v); [|apply IH; assumption].
     constructor; [|apply IH; assumption]. unfold in_grid. cbn [fst snd]. lia.
+  - destruct prev as [p|]; [|discriminate Hsp]. apply andb_true_iff in Hsp as [Hp Hsp].
+    destruct (cval_data fdiv100 en style v); [|apply IH; assumption].
+    constructor; [|apply IH; assumption]. unfold in_grid. cbn [fst snd]. lia.
   - apply IH; assumption.
+Qed.
+
+Lemma wf_layout_items : forall c, wf_layout en c = true ->
+  forallb (wf_item en) (l_items c) = true /\ shorts_placed None (l_items c) = true.
+Proof.
+  intros c Hwf. unfold wf_layout in Hwf.
+  apply andb_true_iff in Hwf as [Hwf _]. apply andb_true_iff in Hwf as [Hwf Hsp].
+  apply andb_true_iff in Hwf as [Hwf _]. apply andb_true_iff in Hwf as [_ Hit].
+  split; assumption.
 Qed.
 
 (* for every logical sheet and every legal encoding of it outside the known class, the model of
@@ -1432,8 +1542,8 @@ Proof.
   intros L c (Hwf & HL & Hs). unfold worksheet_range_ref.
   rewrite sheet_cells_encode by assumption. cbn [obind lazy_cells]. rewrite HL.
   apply from_sparse_range_of; [apply sorted_by_rowb_spec, Hs|].
-  rewrite <- HL. unfold logical. apply denote_grid; [|lia].
-  unfold wf_layout in Hwf. repeat (apply andb_true_iff in Hwf as [Hwf ?]). assumption.
+  rewrite <- HL. unfold logical. destruct (wf_layout_items _ Hwf) as [Hit Hsp].
+  apply denote_grid; [exact Hit|exact Hsp|lia].
 Qed.
 
 (* what "range_of L" means, spelled out: tight bounding box of the cells, every cell at its
@@ -1448,8 +1558,8 @@ Proof.
   rewrite sheet_cells_encode by assumption. cbn [obind lazy_cells]. rewrite HL.
   apply from_sparse_spec. cbn [pre].
   assert (Hg : Forall (@in_grid dref) L).
-  { rewrite <- HL. unfold logical. apply denote_grid; [|lia].
-    unfold wf_layout in Hwf. repeat (apply andb_true_iff in Hwf as [Hwf ?]). assumption. }
+  { rewrite <- HL. unfold logical. destruct (wf_layout_items _ Hwf) as [Hit Hsp].
+    apply denote_grid; [exact Hit|exact Hsp|lia]. }
   split; [apply sorted_by_rowb_spec, Hs|]. split.
   - intros x Hx. rewrite Forall_forall in Hg. destruct (Hg x Hx). unfold U32MAX. lia.
   - destruct L as [|c0 L0]; [exact I|]. cbn [map].
@@ -1479,21 +1589,32 @@ Proof.
   intros c Hwf. unfold worksheet_range_ref.
   rewrite sheet_cells_encode by assumption. cbn [obind lazy_cells].
   apply from_sparse_range_of_any_order.
-  unfold logical. apply denote_grid; [|lia].
-  unfold wf_layout in Hwf. repeat (apply andb_true_iff in Hwf as [Hwf ?]). assumption.
+  unfold logical. destruct (wf_layout_items _ Hwf) as [Hit Hsp].
+  apply denote_grid; [exact Hit|exact Hsp|lia].
 Qed.
 
 (* the layout-level reading of "ignorable records never shift or drop cells": an ignorable
    record inserted anywhere in the cell table of a legal layout gives a legal layout of the
    same logical sheet *)
-Lemma denote_insert : forall a b row fr id body,
-  denote fdiv100 en row (a ++ (fr, IOther id body) :: b) = denote fdiv100 en row (a ++ b).
+Lemma denote_insert : forall a b row prev fr id body,
+  denote fdiv100 en row prev (a ++ (fr, IOther id body) :: b) = denote fdiv100 en row prev (a ++ b).
 Proof.
-  induction a as [|[fa ia] a IH]; intros b row fr id body; [reflexivity|].
-  cbn [app denote]. destruct ia as [r t|col style fl v t|i bd].
+  induction a as [|[fa ia] a IH]; intros b row prev fr id body; [reflexivity|].
+  cbn [app denote]. destruct ia as [r t|col style fl v t|style fl v t|i bd].
   - apply IH.
   - destruct (cval_data fdiv100 en style v); [f_equal|]; apply IH.
+  - destruct prev as [p|]; [|apply IH].
+    destruct (cval_data fdiv100 en style v); [f_equal|]; apply IH.
   - apply IH.
+Qed.
+
+(* ... and stays legal: the inserted record moves no short cell *)
+Lemma shorts_placed_insert : forall a b prev fr id body,
+  shorts_placed prev (a ++ (fr, IOther id body) :: b) = shorts_placed prev (a ++ b).
+Proof.
+  induction a as [|[fa ia] a IH]; intros b prev fr id body; [reflexivity|].
+  cbn [app shorts_placed]. destruct ia as [r t|col style fl v t|style fl v t|i bd]; try apply IH.
+  destruct prev as [p|]; [|reflexivity]. rewrite IH. reflexivity.
 Qed.
 
 End Main.
@@ -1575,7 +1696,9 @@ Lemma nodim_legal : forall fdiv100,
   l_dim nodim_layout = None.
 Proof. intros. split; [split; [|split]|]; vm_compute; reflexivity. Qed.
 
-(* a layout with every record kind, both id forms, padded lengths, a block, a wrong BrtWsDim *)
+(* a layout with every record kind — long, formula and short cell records, a run of short
+   records after a cell, across a record outside the cell grammar and after a blank cell —, both
+   id forms, padded lengths, a block, a wrong BrtWsDim *)
 Definition example_env : env := mkEnv [FOther; FDateTime; FTimeDelta] false [[97; 98]; [99]].
 Definition example_layout : layout :=
   mkLayout [HRec (fr2, 129, []); HRec (fr2, 147, [1; 2; 3])]
@@ -1584,26 +1707,52 @@ Definition example_layout : layout :=
             HBlock (fr2, 133, []) [(fr2, 137, [0; 0]); (fr2, 145, [])] (fr2, [])]
            (fr2, [])
            [(fr1, IRow 2 [0; 0; 0; 0]); (fr1, ICell 3 0 0 (VRk (RkI (-5) false)) []);
-            (mkFrm true 3, IOther 1 [3; 0; 0; 0; 0; 0; 0; 0]);
-            (fr1, ICell 4 1 0 (VReal 4607182418800017408) []);
-            (fr1, ICell 5 0 0 (VSt [104; 105; 128512]) []);
+            (fr1, IShort 1 0 (VReal 4607182418800017408) []);
+            (mkFrm true 3, IOther 1025 [3; 0; 0; 0; 0; 0; 0; 0]);
+            (fr1, IShort 0 0 (VSt [104; 105; 128512]) []);
+            (fr1, IShort 0 0 VBlank []);
+            (fr2, IShort 0 1 (VIsst 0) [7]);
+            (fr1, IShort 0 0 (VBool true) []);
+            (mkFrm false 1, IShort 2 0 (VRk (RkI 314 true)) []);
+            (fr1, IShort 0 0 (VErr ENum) []);
+            (fr1, ICell 20 0 0 VBlank []); (fr1, IShort 0 0 (VBool false) []);
             (fr2, IOther 1025 [1; 2; 3]);
             (fr1, IRow 4 []);
             (fr1, IRow 7 []); (fr1, ICell 1 0 0 (VIsst 1) []);
             (fr1, ICell 2 0 0 (VFmlaErr ENA) [0; 0; 3; 0; 0; 0; 1; 2; 3]);
+            (fr1, IShort 1 0 (VRk (RkF 268304384 false)) []);
             (mkFrm false 2, ICell 9 0 0 (VFmlaBool true) [0; 0]);
             (fr1, ICell 10 2 0 (VRk (RkI 314 true)) []);
             (fr1, ICell 11 0 0 (VFmlaNum 4613937818241073152) [0; 0]);
             (fr1, ICell 12 0 0 (VFmlaStr [120]) [0; 0]);
             (fr1, ICell 13 0 0 (VErr EDiv0) []); (fr1, ICell 14 0 0 VBlank []);
-            (fr1, ICell 16383 0 0 (VBool false) [])]
+            (fr1, ICell 16382 0 0 (VBool false) []); (fr1, IShort 0 0 (VReal 0) [])]
            (fr2, []) [130; 1; 0].
 
 Lemma example_legal : forall fdiv100,
   legal fdiv100 example_env example_layout (logical fdiv100 example_env example_layout) /\
   l_dim example_layout <> None /\
-  length (logical fdiv100 example_env example_layout) = 11%nat.
+  map fst (logical fdiv100 example_env example_layout) =
+    [(2, 3); (2, 4); (2, 5); (2, 7); (2, 8); (2, 9); (2, 10); (2, 21);
+     (7, 1); (7, 2); (7, 3); (7, 9); (7, 10); (7, 11); (7, 12); (7, 13); (7, 16382); (7, 16383)].
 Proof. intros. split; [split; [|split]|split]; vm_compute; try reflexivity; discriminate. Qed.
+
+(* the short records of the example: each stands right of the previous cell record of its row *)
+Lemma example_short_cells : forall fdiv100,
+  nth_error (logical fdiv100 example_env example_layout) 1 =
+    Some ((2, 4), RVal (DDateTime 4607182418800017408 false false)) /\
+  nth_error (logical fdiv100 example_env example_layout) 3 = Some ((2, 7), RShared [97; 98]) /\
+  nth_error (logical fdiv100 example_env example_layout) 7 = Some ((2, 21), RVal (DBool false)).
+Proof. intros. repeat split; vm_compute; reflexivity. Qed.
+
+(* a short record without a cell before it in its row, or running off the sheet, is not legal *)
+Lemma short_needs_cell :
+  shorts_placed None [(fr1, IRow 0 []); (fr1, IShort 0 0 (VBool true) [])] = false /\
+  shorts_placed None [(fr1, IRow 0 []); (fr1, ICell 16383 0 0 (VBool true) []);
+                      (fr1, IShort 0 0 (VBool true) [])] = false /\
+  shorts_placed None [(fr1, IRow 0 []); (fr1, ICell 0 0 0 (VBool true) []); (fr1, IRow 1 []);
+                      (fr1, IShort 0 0 (VBool true) [])] = false.
+Proof. repeat split; reflexivity. Qed.
 
 Lemma example_sst :
   forallb wf_sst_item [(fr1, [97; 98], []); (fr2, [99], [1; 2])] = true /\
